@@ -20,7 +20,7 @@ RULE = (
     "case-variant mnemonics, text and float curves), read with mnemonic_case upper and preserve and additionally after an in-memory crop of the index, and every section "
     "state reachable by an operation history of depth <= 2 (thorough 3) from C13's seven roots (stale suffixes, literal "
     "'A:1' names included); copiers: pickle protocols 0..5 and copy.deepcopy applied to the LASFile, each section and "
-    "the first/last item of each section; oracle: strict canonical equality (session + original mnemonics, unit, value, "
+    "the first/last item of each section; scratch objects with 9..130 same-named items; curves re-ordered in memory; both objects written with the same explicit options after the copy was taken and then every header field of one edited; oracle: strict canonical equality (session + original mnemonics, unit, value, "
     "description, arrays with dtype, index_unit, comparison mode), byte-identical write(), and independence under four "
     "mutations in both directions; non-trivial = object holding a duplicated or blank mnemonic, or a text curve"
 )
